@@ -120,6 +120,47 @@ def emit(repo, spec, H):
             term = H.P(e, params, env).ternary_all()
             out.append("(* %s: %s: path condition of the statement matching %s: %s *)" % (f, fn, anchor.replace("*)", "* )").replace("(*", "( *"), cexpr.replace("*)", "* )").replace("(*", "( *")))
             out.append("Definition %s %s : Z := %s." % (name, " ".join("(%s : Z)" % p_ for p_ in params), term))
+        elif kind == "switch_var":
+            # value a switch gives to one variable per case label (fall-through followed as the C code does), and in
+            # the default branch:  Definition name : list (Z * Z)  and  Definition name_default : Z
+            _, f, fn, nth, var, name = ent
+            env = {}
+            env.update(H.all_enums(H.src(repo, f)))
+            env.update(H.defines(repo, f))
+            rows = H.switch_table(H.src(repo, f), fn, env, nth)
+            items, dflt = [], None
+            for labels, assigns, ret in rows:
+                if var not in assigns:
+                    continue
+                v = H.ceval(assigns[var], env)
+                for lab in labels:
+                    if lab == "default":
+                        dflt = v
+                    else:
+                        items.append("(%s, %s)" % (H.zlit(lab), H.zlit(v)))
+            if dflt is None:
+                raise ValueError("%s:%s: switch #%d gives %s no value in its default branch" % (f, fn, nth, var))
+            out.append("(* %s: %s: switch #%d, value of %s per case label (after preprocessing, fall-through followed) *)" % (f, fn, nth, var))
+            out.append("Definition %s : list (Z * Z) := [%s]." % (name, "; ".join(items)))
+            out.append("Definition %s_default : Z := %s." % (name, H.zlit(dflt)))
+        elif kind == "flag_writers":
+            # every function of a file whose name matches a pattern and that assigns to handle->flags: how many such
+            # statements it has.  Definition <prefix>_<fn> : Z := count (only functions with count > 0), plus their number
+            _, f, fnpat, stmt, prefix = ent
+            txt = H.src(repo, f)
+            fns = sorted(set(re.findall(r"(?m)^(%s)\s*\(" % fnpat, txt)))
+            n = 0
+            for fn in fns:
+                try:
+                    body = H.func_body(txt, fn)
+                except ValueError:
+                    continue
+                c = len(re.findall(stmt, body))
+                if c:
+                    n += 1
+                    out.append("Definition %s_%s : Z := %d." % (prefix, fn.lower(), c))
+            out.append("(* %s: functions matching %s with statements /%s/ *)" % (f, fnpat, stmt.replace("*)", "* )")))
+            out.append("Definition %s_count : Z := %d." % (prefix, n))
         else:
             raise ValueError("unknown structure kind %r" % kind)
     return out
